@@ -51,11 +51,41 @@ func checkC05(c *Ctx, r *Report) {
 		"R2 with shared==true every return of a cached result passes Close of the shared handle and a fresh Cache.Get whose entry replaces the shared one, or leaves through fetchDirectlyFromUpstream",
 		"R3 no single-use object escapes the closure: every non-error return of getFromCacheOrFetch is a cached result (Type != Direct); direct results are closed and turned into ErrNotCacheable; followers of an uncacheable leader fetch their own response with their own request",
 		"R4 the shared fetch runs with a context detached from the leader's cancellation (WithoutCancel/Background), not with the leader's request context",
+		"R5 inside the flight, request headers are added only to a Clone of the request (the flight's request shares its header map with the leader's), so a fallback to per-client fetches sends every client's own request",
 	}
 	r.NotDec = []string{"'exactly one' origin request under every arrival order (singleflight timing)", "slow readers", "completeness of bodies as bytes"}
 	li := BuildLocks(c)
 	fs := c.FuncsNamed(fetcherT + "dedupFetch")
 	gs := c.FuncsNamed(fetcherT + "getFromCacheOrFetch")
+	// R5: the request object handed to the flight shares its header map with the leader's own request
+	// (WithContext makes a shallow copy): whatever the flight adds to a request it adds to a Clone
+	if len(gs) > 0 {
+		n5 := 0
+		for _, h := range pkgGroup(li, gs[0]) {
+			eachInstr(h, func(in ssa.Instruction) {
+				x, ok := in.(*ssa.Call)
+				if !ok {
+					return
+				}
+				n := calleeName(x)
+				if n != "(net/http.Header).Set" && n != "(net/http.Header).Add" {
+					return
+				}
+				args := callArgs(x)
+				rt, p := fieldPath(args[0])
+				if len(p) == 0 || p[len(p)-1] != "Header" || structName(rt.Type()) != "net/http.Request" {
+					return
+				}
+				n5++
+				onClone := false
+				if cl, isCall := resolveVal(rt).(*ssa.Call); isCall && calleeName(cl) == "(*net/http.Request).Clone" {
+					onClone = true
+				}
+				r.Check(onClone, "C05.R5", fmt.Sprintf("%s: request header write #%d targets a private clone", fnKey(h), n5), c.InstrPos(x), "receiver is req.Clone(...).Header", "the shared fetch writes a header into the request object it was given, whose header map is the leader client's own: when the flight falls back to per-client fetches, the leader's request carries the proxy's conditional and that client alone receives a 304 / a different answer than the others")
+			})
+		}
+		r.Floor("C05.R5", n5, 2, "request header writes inside the flight")
+	}
 	if len(fs) == 0 || len(gs) == 0 {
 		r.Undecided("C05.R1", "anchors", "-", "dedupFetch / getFromCacheOrFetch not found")
 		return
